@@ -132,16 +132,22 @@ def python_binding(func, args, kwargs):
 _SHADOWS = {}
 
 
-def interpreter_binding(sig, args, kwargs):
+def interpreter_binding(sig, args, kwargs, method=False):
     """How the running interpreter binds the call on a function with this parameter list ({name: value}), or None
     if it rejects it.  Unlike inspect.Signature.bind (CPython 3.12) this accepts a keyword named like a defaulted
-    positional-only parameter left at its default, which Python routes to **kwargs."""
-    sh = _SHADOWS.get(sig)
+    positional-only parameter left at its default, which Python routes to **kwargs.  method=True: the parameter
+    list of a method (instance parameter first), called on an instance - so that a keyword named 'self' is judged
+    as Python judges it for a bound method."""
+    sh = _SHADOWS.get((sig, method))
     if sh is None:
         ns = {}
-        exec("def shadow(%s):\n    return locals()\n" % sig_text(sig), ns)
-        sh = _SHADOWS[sig] = ns["shadow"]
+        exec("def shadow(%s):\n    return locals()\n" % sig_text(sig, with_self=method), ns)
+        sh = _SHADOWS[(sig, method)] = ns["shadow"]
     try:
+        if method:
+            loc = sh(None, *args, **kwargs)
+            loc.pop("self", None)
+            return loc
         return sh(*args, **kwargs)
     except TypeError:
         return None
